@@ -16,6 +16,7 @@ from engine.statusmon import Mon
 from rules import c06
 
 LEVEL = "other"
+THOROUGH_VIEWS = ("cap=3",)   # this module already reads both the library's and the binary's copy where it matters
 RT = "rules::RecordType"
 EXPECTED_CALLERS = {
     "<commands::reporters::validate::structured::CommonStructuredReporter as commands::reporters::validate::structured::StructuredReporter>::report",
